@@ -160,6 +160,96 @@ func (w *World) Release() {
 	vos.CloseLeaked()
 }
 
+// FlushWatch notes, for the channels of a daemon that is being shut down, which messages
+// Channel.flush wrote to the channel's disk queue (the records written after its exit flag
+// was set, identified by the message id inside each record). A message that sits in the
+// in-flight table afterwards and was not written was registered in flight after the flush
+// had passed it by.
+type FlushWatch struct {
+	n       *NSQD
+	Flushed map[string]map[string]bool // "topic/channel" -> message ids
+	// the channel's consumers and how many messages each had been sent when the flush started
+	clients map[string]map[*clientV2]uint64
+}
+
+func WatchFlush(n *NSQD) *FlushWatch {
+	fw := &FlushWatch{n: n, Flushed: map[string]map[string]bool{}, clients: map[string]map[*clientV2]uint64{}}
+	// (consumers known before the shutdown starts: Channel.exit drops them from the channel)
+	pre := map[string]map[*clientV2]bool{}
+	for tn, t := range n.topicMap {
+		for cn, c := range t.channelMap {
+			pre[tn+"/"+cn] = map[*clientV2]bool{}
+			for _, cons := range c.clients {
+				if k, ok := cons.(*clientV2); ok {
+					pre[tn+"/"+cn][k] = true
+				}
+			}
+		}
+	}
+	vos.Hook = func(e vos.Effect) {
+		// (data files only: the queue's metadata file is written when the backend is closed)
+		if e.Op != "write" || !strings.Contains(e.Path, ".diskqueue.") || strings.Contains(e.Path, ".meta.") {
+			return
+		}
+		for tn, t := range n.topicMap {
+			for cn, c := range t.channelMap {
+				key := tn + "/" + cn
+				if c.exitFlag != 1 || !strings.Contains(e.Path, "/"+tn+":"+cn+".diskqueue.") {
+					continue
+				}
+				if fw.Flushed[key] == nil {
+					// the flush starts: remember how many messages each consumer had been sent
+					fw.Flushed[key] = map[string]bool{}
+					fw.clients[key] = map[*clientV2]uint64{}
+					for k := range pre[key] {
+						fw.clients[key][k] = k.MessageCount
+					}
+				}
+				// what is written to the channel's queue while it shuts down is what the flush
+				// persists: one record = 4-byte length, 8-byte timestamp, 2-byte attempts,
+				// 16-byte id, body
+				if len(e.Data) >= 4+minValidMsgLength {
+					fw.Flushed[key][string(e.Data[14:30])] = true
+				}
+			}
+		}
+	}
+	return fw
+}
+
+func (fw *FlushWatch) Stop() { vos.Hook = nil }
+
+// SendsAfterFlush: how many messages the channel's consumers were sent after the flush had
+// started (each is a message a pump took off the queue or off the just-written backend).
+func (fw *FlushWatch) SendsAfterFlush(topic, ch string) int {
+	n := 0
+	for k, before := range fw.clients[topic+"/"+ch] {
+		n += int(k.MessageCount - before)
+	}
+	return n
+}
+
+// RegisteredAfterFlush: bodies of the messages that sit in the channel's in-flight table
+// now and were not there when the flush started.
+func (fw *FlushWatch) RegisteredAfterFlush(topic, ch string) map[string]bool {
+	out := map[string]bool{}
+	t := fw.n.topicMap[topic]
+	if t == nil {
+		return out
+	}
+	c := t.channelMap[ch]
+	if c == nil {
+		return out
+	}
+	set := fw.Flushed[topic+"/"+ch]
+	for id, m := range c.inFlightMessages {
+		if !set[string(id[:])] {
+			out[string(m.Body)] = true
+		}
+	}
+	return out
+}
+
 // ---------------------------------------------------------------- connections
 
 type Frame struct {
